@@ -174,6 +174,14 @@ func (rm *RpcMultiplexer) NewStreamReadWriter(
 		func(ctx context.Context, rpc *goatorepo.Rpc) error {
 			err := rm.rw.Write(ctx, rpc)
 			if err != nil {
+				if rm.ctx.Err() == nil {
+					// The connection's read loop is alive, so there is no read error to
+					// prefer. Do not take rm.mutex to find that out: the read loop may be
+					// holding it, parked delivering to this very stream (its caller has
+					// cancelled and this is the failing reset write of its teardown, which
+					// runs before the drain starts); waiting here would wedge the connection.
+					return err
+				}
 				if rErr := rm.readErrorIfDone(); rErr != nil {
 					return rErr
 				}
